@@ -18,12 +18,15 @@ use std::path::PathBuf;
 use std::sync::atomic::{AtomicU64, Ordering};
 
 static COUNTER: AtomicU64 = AtomicU64::new(0);
+// the page template: with an empty shim every document renders to the empty string
+const SHIM: &str = "<style>{{STYLESHEET}}</style><title>{{TITLE}}</title>{{ABSTRACT}}<hr>{{INTRO}}<hr>{{CONTENT}}<script>{{CODE}}</script>";
+const STYLE: &str = "body{}";
 
 struct Universe {
   names: Vec<String>,
   text: BTreeMap<String, String>,  // name -> text
   tree: BTreeMap<String, String>,  // name -> debug print of parse(text)
-  html: BTreeMap<String, String>,  // name -> format_html(parse(text), "", "")
+  html: BTreeMap<String, String>,  // name -> format_html(parse(text), STYLE, SHIM)
 }
 
 fn classify_text(u: &Universe, s: &str) -> String {
@@ -102,7 +105,7 @@ pub fn run(req: &J) -> J {
       let (d, h) = match parsed {
         Ok(Ok(tree)) => {
           let d = format!("{:?}", tree);
-          let h = catch_unwind(AssertUnwindSafe(|| Formatter::new().format_html(&tree, "".to_string(), "".to_string())))
+          let h = catch_unwind(AssertUnwindSafe(|| Formatter::new().format_html(&tree, STYLE.to_string(), SHIM.to_string())))
             .unwrap_or_else(|_| "<format panic>".to_string());
           (d, h)
         }
@@ -134,6 +137,8 @@ pub fn run(req: &J) -> J {
     .unwrap_or_default();
   let root = canon.display().to_string();
   let mut sources = mech::MechSources::new();
+  sources.set_stylesheet(STYLE);
+  sources.set_shim(SHIM);
   let mut steps: Vec<J> = vec![];
   let empty = vec![];
   for op in req.get("ops").and_then(|o| o.as_array()).unwrap_or(&empty).iter() {
